@@ -796,3 +796,11 @@ CASES["C07"] += [
     ("reintroduce F-37 (state carried into sibling regions / blocks)", "mutant", "snaxc/transforms/convert_linalg_to_accfg.py", "@revert:cc67a9a~1", "", ["C07.weave-regions"]),
 ]
 
+CASES["C04"] += [
+    ("reintroduce F-38 (registered factories bind the loop variable late)", "mutant", "snaxc/tools/config_parser.py", "@revert:2a8c6a9~1", "", ["C04.registry-binding"]),
+]
+
+CASES["C20"] += [
+    ("reintroduce F-39 (choose regions map operands by value)", "mutant", "snaxc/dialects/phs.py", "@revert:7151afe~1", "", ["C20.region-operands"]),
+]
+
